@@ -219,11 +219,45 @@ EvalSeq(xs, rho, selfs) == [j \in 1..Len(xs) |-> EvalE(xs[j], rho, selfs)]
 EvalFlds(fl, rho, selfs) == [j \in 1..Len(fl) |-> Fld(fl[j].nm, EvalE(fl[j].ex, rho, selfs))]
 FldVals(fs) == [j \in 1..Len(fs) |-> fs[j].val]
 
+(* ---- which calls the reference describes --------------------------------------- *)
+(* A function closes over the bindings that exist at its definition, so it cannot  *)
+(* name itself; the only way to an evaluation without end is to hand a function     *)
+(* that applies something it was GIVEN to a function that applies something it was  *)
+(* given  (let w = func (a) => a(a); w(w)).  The reference has no recursion bound,  *)
+(* it leaves such calls undescribed ("unm"): generators built on it do not produce  *)
+(* them, and C04 probes them as given texts.  AppliesGiven over-approximates.       *)
+RECURSIVE AppliesGiven(_, _), HandsOn(_)
+AnyGiven(xs, ps) == \E j \in 1..Len(xs) : AppliesGiven(xs[j], ps)
+InPs(n, ps) == \E j \in 1..Len(ps) : ps[j] = n
+AppliesGiven(x, ps) ==
+  CASE x.e \in {"lit", "sym"} -> FALSE
+    [] x.e \in {"grp", "trace", "not", "fail", "cast"} -> AppliesGiven(x.x, ps)
+    [] x.e = "list" -> AnyGiven(x.xs, ps)
+    [] x.e = "tuple" -> \E j \in 1..Len(x.flds) : AppliesGiven(x.flds[j].ex, ps)
+    [] x.e = "call" -> InPs(x.fn, ps) \/ AnyGiven(x.args, ps)
+    [] x.e = "range" -> AppliesGiven(x.lo, ps) \/ AppliesGiven(x.hi, ps) \/ AnyGiven(x.step, ps)
+    [] x.e = "select" -> AppliesGiven(x.x, ps) \/ AnyGiven(x.dflt, ps)
+                         \/ \E j \in 1..Len(x.flds) : AppliesGiven(x.flds[j].ex, ps)
+    [] x.e = "copy" -> InPs(x.sel, ps) \/ \E j \in 1..Len(x.flds) : AppliesGiven(x.flds[j].ex, ps)
+    [] x.e = "fop" -> x.fn.e # "sym" \/ InPs(x.fn.nm, ps) \/ AnyGiven(x.acc, ps) \/ AppliesGiven(x.tgt, ps)
+    [] x.e = "fmt" -> TRUE
+    [] x.e = "bin" -> IF x.op = "dot" THEN AppliesGiven(x.l, ps) \/ x.r.e \in {"call", "copy"}
+                      ELSE AppliesGiven(x.l, ps) \/ AppliesGiven(x.r, ps)
+    [] OTHER -> TRUE                    \* nested function and module literals: not analysed
+HigherOrder(f) == f.t = "func" /\ AppliesGiven(f.body, f.ps)
+HandsOn(v) ==      \* the value carries a function that applies what it is given
+  CASE v.t = "func" -> HigherOrder(v)
+    [] v.t = "list" -> \E j \in 1..Len(v.es) : HandsOn(v.es[j])
+    [] v.t = "tuple" -> \E j \in 1..Len(v.fs) : HandsOn(v.fs[j].val)
+    [] v.t = "module" -> TRUE
+    [] OTHER -> FALSE
+
 (* a call: arity must match; body sees the definition-time bindings plus the  *)
 (* parameters (which shadow them); `self` is not available inside             *)
 Call(f, args) ==
   IF f.t # "func" THEN Err
   ELSE IF Len(args) # Len(f.ps) THEN Err
+  ELSE IF (\E j \in 1..Len(args) : HandsOn(args[j])) /\ HigherOrder(f) THEN Unm
   ELSE EvalE(f.body, f.env \o [j \in 1..Len(args) |-> Fld(f.ps[j], args[j])], << >>)
 
 (* module instantiation: parameters = defaults merged with the overrides (same *)
